@@ -17,7 +17,10 @@ import (
 	"go/constant"
 	"go/token"
 	"go/types"
+	"sort"
 	"strings"
+
+	"golang.org/x/tools/go/packages"
 )
 
 type pathGuard struct {
@@ -585,5 +588,271 @@ func c13ValueText(c *Ctx) {
 	})
 	if nBool < 2 {
 		c.undecided("C13.R13", "the texts of the two boolean values were not found in (*Value).toString")
+	}
+}
+
+// c06NilMaps: a write m[k] = v (or m[k]++) into a nil map panics. For every map-typed field of a module struct that
+// some function of the module writes through, everything ever stored in the field must be a map that exists: a make, a
+// non-nil map literal, or a local bound once to one of those (the copy loops). A value that can be nil (a parameter's
+// field, maps.Clone of one — which hands nil back for nil) is not; a composite literal of the struct that leaves the
+// field out leaves it nil.
+func c06NilMaps(c *Ctx) {
+	w := c.W
+	type fieldUse struct {
+		fld     *types.Var
+		written token.Pos // some m[k] = v through the field
+	}
+	fields := map[*types.Var]*fieldUse{}
+	pkgs := []*packages.Package{w.Pkg(""), w.Pkg("variable")}
+	// fields written through
+	for _, p := range pkgs {
+		if p == nil {
+			continue
+		}
+		info := p.TypesInfo
+		for _, f := range w.FuncsIn(p) {
+			if f.Body == nil {
+				continue
+			}
+			ast.Inspect(f.Body, func(n ast.Node) bool {
+				var lhs []ast.Expr
+				switch x := n.(type) {
+				case *ast.AssignStmt:
+					lhs = x.Lhs
+				case *ast.IncDecStmt:
+					lhs = []ast.Expr{x.X}
+				}
+				for _, l := range lhs {
+					ix, ok := unparen(l).(*ast.IndexExpr)
+					if !ok {
+						continue
+					}
+					tv, ok := info.Types[ix.X]
+					if !ok {
+						continue
+					}
+					if _, isMap := tv.Type.Underlying().(*types.Map); !isMap {
+						continue
+					}
+					if fld := lastField(info, ix.X); fld != nil && fld.Pkg() != nil && strings.HasPrefix(fld.Pkg().Path(), modPath) {
+						// a write that follows, in the same function, a top-level store of a map made there writes that map
+						var latest *ast.AssignStmt
+						for _, st := range f.Body.List {
+							if as, ok := st.(*ast.AssignStmt); ok && as.End() <= ix.Pos() && len(as.Lhs) == len(as.Rhs) {
+								for _, sl := range as.Lhs {
+									if _, isSel := unparen(sl).(*ast.SelectorExpr); isSel && lastField(info, sl) == fld {
+										latest = as
+									}
+								}
+							}
+						}
+						if latest != nil {
+							fresh := false
+							for i, sl := range latest.Lhs {
+								if lastField(info, sl) == fld {
+									if call, ok := unparen(latest.Rhs[i]).(*ast.CallExpr); ok && isBuiltin(info, call, "make") {
+										fresh = true
+									}
+									if _, ok := unparen(latest.Rhs[i]).(*ast.CompositeLit); ok {
+										fresh = true
+									}
+								}
+							}
+							if fresh {
+								continue
+							}
+						}
+						if fields[fld] == nil {
+							fields[fld] = &fieldUse{fld: fld, written: ix.Pos()}
+						}
+					}
+				}
+				return true
+			})
+		}
+	}
+	if len(fields) == 0 {
+		c.undecided("C06.R11", "no map field written through found")
+		return
+	}
+	var freshMap func(f *Func, e ast.Expr) (bool, string)
+	depth := 0
+	freshMap = func(f *Func, e ast.Expr) (bool, string) {
+		info := f.Pkg.TypesInfo
+		x := w.expander(f)
+		e = unparen(e)
+		for k := 0; k < 4; k++ {
+			id := identOf(e)
+			if id == nil {
+				break
+			}
+			rhs, idx, _, ok := x.def(info.Uses[id])
+			if !ok || rhs == nil || idx >= 0 {
+				break
+			}
+			e = unparen(rhs)
+		}
+		switch y := e.(type) {
+		case *ast.CallExpr:
+			if isBuiltin(info, y, "make") {
+				return true, "a map made here"
+			}
+			if callee := calleeOf(info, y); callee != nil {
+				// a module function every return of which hands back a map made there
+				if g := w.byObj[callee.Origin()]; g != nil && g.Body != nil && depth < 3 {
+					all, nret := true, 0
+					depth++
+					walkNoLit(g.Body, func(q ast.Node) bool {
+						if r, ok := q.(*ast.ReturnStmt); ok {
+							nret++
+							if len(r.Results) != 1 {
+								all = false
+							} else if ok, _ := freshMap(g, r.Results[0]); !ok {
+								all = false
+							}
+						}
+						return true
+					})
+					depth--
+					if all && nret > 0 {
+						return true, "the result of " + callee.Name() + ", every return of which hands back a map made there"
+					}
+				}
+				return false, "the result of " + funcFullName(callee) + ", which can be nil (maps.Clone hands nil back for a nil map)"
+			}
+		case *ast.CompositeLit:
+			return true, "a map literal"
+		}
+		if isNilExpr(info, e) {
+			return false, "nil"
+		}
+		// a package-level table that is a map literal and is never assigned
+		if id := identOf(e); id != nil {
+			if v, ok := info.Uses[id].(*types.Var); ok && v.Parent() == f.Pkg.Types.Scope() {
+				isLit, assigned := false, false
+				for _, file := range f.Pkg.Syntax {
+					ast.Inspect(file, func(q ast.Node) bool {
+						switch z := q.(type) {
+						case *ast.ValueSpec:
+							for i, nm := range z.Names {
+								if info.Defs[nm] == types.Object(v) && i < len(z.Values) {
+									_, isLit = unparen(z.Values[i]).(*ast.CompositeLit)
+								}
+							}
+						case *ast.AssignStmt:
+							for _, l := range z.Lhs {
+								if lid := identOf(l); lid != nil && info.Uses[lid] == types.Object(v) {
+									assigned = true
+								}
+							}
+						}
+						return true
+					})
+				}
+				if isLit && !assigned {
+					return true, "the package-level map literal " + id.Name + ", which is never assigned"
+				}
+			}
+		}
+		return false, "the value " + x.str(e) + ", not known to be a map that exists"
+	}
+	n := 0
+	var flds []*types.Var
+	for fld := range fields {
+		flds = append(flds, fld)
+	}
+	sort.Slice(flds, func(i, j int) bool { return flds[i].Pos() < flds[j].Pos() })
+	for _, fld := range flds {
+		owner := ""
+		for _, p := range pkgs {
+			if p == nil {
+				continue
+			}
+			info := p.TypesInfo
+			for _, f := range w.FuncsIn(p) {
+				if f.Body == nil {
+					continue
+				}
+				k := 0
+				ast.Inspect(f.Body, func(q ast.Node) bool {
+					switch y := q.(type) {
+					case *ast.AssignStmt:
+						if len(y.Lhs) != len(y.Rhs) {
+							return true
+						}
+						for i, l := range y.Lhs {
+							if _, isSel := unparen(l).(*ast.SelectorExpr); isSel && lastField(info, l) == fld {
+								n++
+								k++
+								ok, why := freshMap(f, y.Rhs[i])
+								c.fn(f)
+								c.ob("C06.R11", f.Name+"/stores "+fld.Name()+"#"+itoa(k), w.Pos(y.Pos()), ok, map[bool]string{true: "the field receives " + why, false: "the map field " + fld.Name() + ", which " + w.Pos(fields[fld].written) + " writes through, receives " + why + ": the write would panic (assignment to entry in nil map)"}[ok])
+							}
+						}
+					case *ast.CompositeLit:
+						tv, ok := info.Types[y]
+						if !ok {
+							return true
+						}
+						st, ok := tv.Type.Underlying().(*types.Struct)
+						if !ok {
+							return true
+						}
+						has := false
+						for i := 0; i < st.NumFields(); i++ {
+							if st.Field(i) == fld {
+								has = true
+							}
+						}
+						if !has {
+							return true
+						}
+						owner = typeStr(tv.Type)
+						n++
+						k++
+						c.fn(f)
+						fv := litField(y, fld.Name())
+						if fv == nil {
+							// left out: fine only if the object is completed right away by a store to the field in the same function
+							completed := false
+							ast.Inspect(f.Body, func(z ast.Node) bool {
+								if as, ok := z.(*ast.AssignStmt); ok && as.Pos() > y.End() {
+									for _, l := range as.Lhs {
+										if _, isSel := unparen(l).(*ast.SelectorExpr); isSel && lastField(info, l) == fld {
+											completed = true
+										}
+									}
+								}
+								if call, ok := z.(*ast.CallExpr); ok && call.Pos() > y.End() {
+									if callee := calleeOf(info, call); callee != nil {
+										if g := w.byObj[callee]; g != nil && g.Body != nil {
+											ast.Inspect(g.Body, func(z2 ast.Node) bool {
+												if as, ok := z2.(*ast.AssignStmt); ok {
+													for _, l := range as.Lhs {
+														if _, isSel := unparen(l).(*ast.SelectorExpr); isSel && lastField(g.Pkg.TypesInfo, l) == fld {
+															completed = true
+														}
+													}
+												}
+												return true
+											})
+										}
+									}
+								}
+								return true
+							})
+							c.ob("C06.R11", f.Name+"/builds "+owner+" with "+fld.Name()+"#"+itoa(k), w.Pos(y.Pos()), completed, map[bool]string{true: "the literal leaves the field out and the same function (or a method it calls) stores it afterwards", false: "a " + owner + " is built without its map " + fld.Name() + ", which " + w.Pos(fields[fld].written) + " writes through: the write would panic (assignment to entry in nil map)"}[completed])
+							return true
+						}
+						ok2, why := freshMap(f, fv)
+						c.ob("C06.R11", f.Name+"/builds "+owner+" with "+fld.Name()+"#"+itoa(k), w.Pos(y.Pos()), ok2, map[bool]string{true: "the field is initialised with " + why, false: "the map field " + fld.Name() + ", which " + w.Pos(fields[fld].written) + " writes through, is initialised with " + why}[ok2])
+					}
+					return true
+				})
+			}
+		}
+	}
+	if n == 0 {
+		c.undecided("C06.R11", "no store to a written-through map field found")
 	}
 }
